@@ -718,6 +718,7 @@ Definition is_ts_kind (k : Z) : bool := (K_Create <=? k) && (k <=? K_PullTract).
 
 (* ------------------------------------------------------------------ client rules (verdict codes) *)
 Definition V_OK := 1.  Definition V_ISSUE := 2.  Definition V_ACK := 3.  Definition V_READ := 4.  Definition V_NOOP := 5.
+Definition V_FIN := 6.
 
 Definition TL := cl_TractLength.
 
@@ -909,7 +910,11 @@ Definition step_finclient (st : state) (op n cls : Z) (runs : list Z) : state * 
   | None => (st, [777; V_NOOP])
   | Some o =>
       let st1 := set_ops st (del_op (s_ops st) op) in
-      if o_kind o =? 3 then
+      (* V_FIN: an operation returns only after every data RPC it issued has come back (single-writer order) *)
+      if existsb (fun e => (k_cli (p_rpc e) =? o_cli o) &&
+                           ((k_kind (p_rpc e) =? K_Write) || (k_kind (p_rpc e) =? K_Create) || (k_kind (p_rpc e) =? K_Read))) (s_pool st)
+      then (st1, [777; V_FIN])
+      else if o_kind o =? 3 then
         if (cls =? cl_NoError) && (n =? o_len o) then
           if ack_allowed st o
           then (set_acked st1 ((o_blob o, o_wid o, mkw (o_wid o) (o_off o) (o_len o)) :: s_acked st1), [777; V_OK])
